@@ -5,8 +5,13 @@ The four Generator classes of artap.operators are driven through their public ge
 HISTORIES: one shared parameter list (the list of dicts a Problem holds), one long-lived generator
 object per class re-initialised with changing numbers, the four classes interleaved and repeated,
 with generators of other designs (Box-Behnken, Plackett-Burman, full factorial) called in between.
-Every run is compared with the model evaluated on the ORIGINAL declared bounds, and the parameter
-dicts are compared with their snapshot after every generate().
+Every run is compared with the model evaluated on the CURRENT declared bounds, and the parameter
+dicts are compared with their snapshot after every generate().  "Current": histories contain `rebound`
+steps in which the harness (the user) changes the declared box between two generate() calls of one
+long-lived generator object - item assignment on the bounds list, rebinding the 'bounds' entry, replacing
+the dicts inside the shared list, giving every live generator a new same-length parameter list - followed
+by the same call again (init() with the same number, or no init() at all); corpus/C12/rebound.json has
+every sampler x every way of changing x both repetitions, the random histories insert them at random.
 
   LHSGenerator      numpy.random.RandomState is replaced (harness side, for the duration of the call)
                     by a recording wrapper around a seeded RandomState; the kind-tagged tape of calls
@@ -305,7 +310,7 @@ def run(ctx):
     # -------------------------------------------------------------------------------------
     # Latin hypercube.  `gen` is the (possibly long-lived) LHSGenerator, `bounds` the ORIGINAL declared bounds
     # -------------------------------------------------------------------------------------
-    def lhs_step(gen, N, bounds, seed, inject, hinfo):
+    def lhs_step(gen, N, bounds, seed, inject, hinfo, do_init=True):
         tape = []
 
         class Recorder:
@@ -336,7 +341,8 @@ def run(ctx):
                 return getattr(self._rs, name)
 
         n = len(bounds)
-        gen.init(N)
+        if do_init:
+            gen.init(N)
         np.random.RandomState = Recorder
         try:
             try:
@@ -458,9 +464,10 @@ def run(ctx):
             sel.add(rng.randint(1, N))
         return sorted(i for i in sel if 1 <= i <= N)
 
-    def halton_step(gen, N, bounds, hinfo):
+    def halton_step(gen, N, bounds, hinfo, do_init=True):
         n = len(bounds)
-        gen.init(N)
+        if do_init:
+            gen.init(N)
         try:
             rows, exc = to_rows(gen.generate()), None
         except CAUGHT as e:
@@ -541,9 +548,10 @@ def run(ctx):
                         return
 
     # -------------------------------------------------------------------------------------
-    def grid_step(gen, k, bounds, hinfo):
+    def grid_step(gen, k, bounds, hinfo, do_init=True):
         n = len(bounds)
-        gen.init(k)
+        if do_init:
+            gen.init(k)
         try:
             rows, exc = to_rows(gen.generate()), None
         except CAUGHT as e:
@@ -602,7 +610,7 @@ def run(ctx):
         f = Q(x)
         return f > 0 and f.numerator & (f.numerator - 1) == 0 and f.denominator & (f.denominator - 1) == 0
 
-    def random_step(gen, N, bounds, precisions, seed, inject, hinfo):
+    def random_step(gen, N, bounds, precisions, seed, inject, hinfo, do_init=True):
         n = len(bounds)
         tape = []
         src = pyrandom.Random(seed)
@@ -614,7 +622,8 @@ def run(ctx):
             tape.append(v)
             return v
 
-        gen.init(N)
+        if do_init:
+            gen.init(N)
         autils.random = rec_random
         try:
             try:
@@ -707,26 +716,34 @@ def run(ctx):
         return out
 
     def run_history(h, hid):
-        """h: {"bounds": [[lb, ub], ...], "precisions": [...], "repr": "float"|"numpy"|"tuple", "steps": [...]}"""
-        bounds0 = [(b[0], b[1]) for b in h["bounds"]]          # ORIGINAL declared bounds: what the model gets
-        precisions = h.get("precisions") or [None] * len(bounds0)
+        """h: {"bounds": [[lb, ub], ...], "precisions": [...], "repr": "float"|"numpy"|"tuple", "steps": [...]}.
+        A step {"generator": "rebound", "how": ..., "bounds": [...], "precisions": [...]} is the USER changing the declared
+        box between two calls (rule 9): in place on the shared dicts (item assignment), by rebinding the 'bounds' list, by
+        replacing the dicts inside the shared list, or by giving every live generator object a new parameter list of the same
+        length.  The model always gets the bounds that are current at the time of the call."""
+        bounds0 = [(b[0], b[1]) for b in h["bounds"]]          # the CURRENT declared bounds: what the model gets
+        precisions = list(h.get("precisions") or [None] * len(bounds0))
         rp = h.get("repr", "float")
         reprs[rp] = reprs.get(rp, 0) + 1
-        params = []
-        for i, b in enumerate(bounds0):
+
+        def as_repr(b):
             if rp == "numpy":
-                bb = [np.float64(b[0]), np.float64(b[1])]
-            elif rp == "tuple":
-                bb = (b[0], b[1])
-            else:
-                bb = [b[0], b[1]]
-            p = {"name": "x_%d" % i, "bounds": bb, "initial_value": b[0]}
-            if precisions[i] is not None:
-                p["precision"] = precisions[i]
-            params.append(p)
+                return [np.float64(b[0]), np.float64(b[1])]
+            if rp == "tuple":
+                return (b[0], b[1])
+            return [b[0], b[1]]
+
+        def make_param(i, b, prec):
+            p = {"name": "x_%d" % i, "bounds": as_repr(b), "initial_value": b[0]}
+            if prec is not None:
+                p["precision"] = prec
+            return p
+
+        params = [make_param(i, b, precisions[i]) for i, b in enumerate(bounds0)]
         snapshot = semantic(copy.deepcopy(params))
         n = len(bounds0)
         gens = {}                                               # long-lived generator objects sharing `params`
+        last_N = {}
         hist_stats["histories"] += 1
         mutated_reported = False
         steps = list(h["steps"])
@@ -735,24 +752,60 @@ def run(ctx):
             st = steps[si]
             si += 1
             g = st["generator"]
-            hinfo = {"history": hid, "step": si - 1, "history_so_far": [s["generator"] for s in steps[:si - 1]]}
+            hinfo = {"history": hid, "step": si - 1, "history_so_far": [
+                s["generator"] + (":" + s["how"] if s["generator"] == "rebound" else "(no init)" if s.get("noinit") else "") for s in steps[:si - 1]]}
             hist_stats["steps"] += 1
+            if g == "rebound":
+                how = st["how"]
+                newb = [(b[0], b[1]) for b in st["bounds"]]
+                newp = list(st.get("precisions") or precisions)
+                assert len(newb) == n
+                if how == "gen_parameters":                   # every live generator gets a NEW list of NEW dicts, same length
+                    params = [make_param(i, b, newp[i]) for i, b in enumerate(newb)]
+                    for go in gens.values():
+                        go.parameters = params
+                else:
+                    for i, b in enumerate(newb):
+                        if how == "dict":                     # the dict inside the shared list is replaced
+                            params[i] = make_param(i, b, newp[i])
+                            continue
+                        if how == "item" and isinstance(params[i]["bounds"], list):
+                            params[i]["bounds"][0], params[i]["bounds"][1] = as_repr(b)[0], as_repr(b)[1]
+                        else:                                 # "list": the 'bounds' entry is rebound (also for tuples)
+                            params[i]["bounds"] = as_repr(b)
+                        if newp[i] is None:
+                            params[i].pop("precision", None)
+                        else:
+                            params[i]["precision"] = newp[i]
+                bounds0, precisions = newb, newp
+                snapshot = semantic(copy.deepcopy(params))
+                hist_stats["bounds_changed_between_calls"] = hist_stats.get("bounds_changed_between_calls", 0) + 1
+                hist_stats["rebound:" + how] = hist_stats.get("rebound:" + how, 0) + 1
+                continue
+            do_init = True
             if g in ("lhs", "halton", "grid", "random"):
                 if st.get("fresh") or g not in gens:
                     gens[g] = {"lhs": ops.LHSGenerator, "halton": ops.HaltonGenerator, "grid": ops.UniformGenerator,
                                "random": ops.RandomGenerator}[g](params)
                 else:
                     hist_stats["repeated_generator_objects"] += 1
+                    if st.get("noinit") and g in last_N:       # generate() again on the same object without init()
+                        do_init = False
+                        st = dict(st, **{"k" if g == "grid" else "N": last_N[g]})
+                        hist_stats["generate_without_init"] = hist_stats.get("generate_without_init", 0) + 1
+                    if st.get("k" if g == "grid" else "N") == last_N.get(g):
+                        hist_stats["same_number_again"] = hist_stats.get("same_number_again", 0) + 1
+                last_N[g] = st["k" if g == "grid" else "N"]
             if g == "lhs":
                 inj = {tuple(int(t) for t in k.split(",")): v for k, v in st.get("inject", {}).items()}
-                lhs_step(gens[g], st["N"], bounds0, st.get("seed", 0), inj, hinfo)
+                lhs_step(gens[g], st["N"], bounds0, st.get("seed", 0), inj, hinfo, do_init)
             elif g == "halton":
-                halton_step(gens[g], st["N"], bounds0, hinfo)
+                halton_step(gens[g], st["N"], bounds0, hinfo, do_init)
             elif g == "grid":
-                grid_step(gens[g], st["k"], bounds0, hinfo)
+                grid_step(gens[g], st["k"], bounds0, hinfo, do_init)
             elif g == "random":
                 inj = {int(k): v for k, v in st.get("inject", {}).items()}
-                random_step(gens[g], st["N"], bounds0, precisions, st.get("seed", 0), inj, hinfo)
+                random_step(gens[g], st["N"], bounds0, precisions, st.get("seed", 0), inj, hinfo, do_init)
             else:
                 hist_stats["interleaved_other_generators"] += 1
                 try:
@@ -775,7 +828,7 @@ def run(ctx):
                     "correspondence": "c12_parameters", "case": dict(hinfo, generator=g, bounds=[list(b) for b in bounds0]),
                     "declared": repr(snapshot)[:600], "after_call": repr(now)[:600]})
                 # make the consequences visible to the direct oracle: every sampler once more on the shared list,
-                # judged against the ORIGINAL declared bounds
+                # judged against the declared bounds
                 follow = [{"generator": "lhs", "N": 5, "seed": 1}, {"generator": "halton", "N": 5},
                           {"generator": "random", "N": 3, "seed": 1}]
                 if 3 ** n * max(n, 1) <= 2100:
@@ -803,6 +856,7 @@ def run(ctx):
             precs.append(p)
             bound_kinds[kd] = bound_kinds.get(kd, 0) + 1
         rp = rng.choice(["float", "float", "float", "numpy", "tuple"])
+        bounds0_decl, precs0_decl = [list(b) for b in bounds], list(precs)
 
         def pick_N():
             r = rng.random()
@@ -845,7 +899,37 @@ def run(ctx):
             else:
                 steps.append({"generator": rng.choice(["boxbehnken", "plackettburman", "fullfact"] if n <= 6 else ["boxbehnken", "plackettburman"]),
                               "center": rng.random() < 0.5})
-        return {"bounds": bounds, "precisions": precs, "repr": rp, "steps": steps}
+        # rule 9: the declared box changes between two generate() calls of ONE long-lived generator object; the second
+        # call repeats the first (same number: init() with the same argument, or no init() at all)
+        sampler_idx = [i for i, s_ in enumerate(steps) if s_["generator"] in ("lhs", "halton", "grid", "random")]
+        for _ in range(rng.choice([0, 1, 1, 2])):
+            if not sampler_idx or n == 0:
+                break
+            i = rng.choice(sampler_idx)
+            again = dict(steps[i], fresh=False)
+            if "seed" in again and rng.random() < 0.5:
+                again["seed"] = rng.randrange(2 ** 31)
+            if rng.random() < 0.35:
+                again["noinit"] = True
+            newb, newp = [], []
+            for j in range(n):
+                if rng.random() < 0.25 and j > 0:
+                    newb.append(list(bounds[j]))
+                    newp.append(precs[j])
+                    continue
+                while True:
+                    b, kd = gen_bound(rng, 0.0, extreme)
+                    pr = precs[j] if rng.random() < 0.7 else rng.choice(PRECS)
+                    if max(abs(float(b[0])), abs(float(b[1]))) / (1e-12 if not pr else pr) < 1e300:
+                        break
+                newb.append(list(b))
+                newp.append(pr)
+                bound_kinds["rebound:" + kd] = bound_kinds.get("rebound:" + kd, 0) + 1
+            reb = {"generator": "rebound", "how": rng.choice(["item", "list", "dict", "gen_parameters"]), "bounds": newb, "precisions": newp}
+            steps[i + 1:i + 1] = [reb, again]
+            bounds, precs = newb, newp           # later insertions start from the box current at the end (approximation: only for variety)
+            sampler_idx = [k_ for k_, s_ in enumerate(steps) if s_["generator"] in ("lhs", "halton", "grid", "random")]
+        return {"bounds": bounds0_decl, "precisions": precs0_decl, "repr": rp, "steps": steps}
 
     NMAX = 40
     GRID_CAP = ctx.pick(1100, 2100)
@@ -972,7 +1056,9 @@ def run(ctx):
 
     ctx.rule = ("one case = one generate() call of LHSGenerator / HaltonGenerator / UniformGenerator / RandomGenerator inside a history "
                 "on one shared parameter list (long-lived generator objects re-initialised with changing numbers, parameter dicts compared "
-                "with their snapshot after every call). Random histories: 3..10 calls, Box-Behnken / Plackett-Burman / full-factorial "
+                "with their snapshot after every call; the declared bounds / precisions are changed between two calls of one object - item "
+                "assignment, list rebinding, dict replacement, new gen.parameters of the same length - and the call repeated with the same "
+                "number, with or without init(); the model gets the box current at each call). Random histories: 3..10 calls, Box-Behnken / Plackett-Burman / full-factorial "
                 "generators in between, parameter counts 0..8, N 0..%d, grid k 0..40 with k^n * n <= %d; bounds from value grids, ints, negative, "
                 "tiny (1e-300..1e-9), huge (1e9..1e300), random and a degenerate stream (lb = ub, lb > ub), given as floats, numpy.float64 "
                 "or tuples; forced extreme draws (0, 1-2^-53, exact rounding ties) in a quarter of the randomised calls. Directed histories at "
